@@ -5,6 +5,7 @@ import (
 	"crypto/elliptic"
 	"crypto/rsa"
 	"fmt"
+	"math/big"
 
 	"github.com/cloudflare/circl/group"
 	"github.com/cloudflare/circl/oprf"
@@ -185,12 +186,26 @@ func c01EdgeScalar(r *core.Rand, j int, g group.Group) []byte {
 	case 3:
 		return mk(255) // many leading/trailing zero bytes
 	}
-	s := g.RandomNonZeroScalar(r)
+	// seeded (circl's ristretto255 RandomScalar ignores its reader, so reduce seeded bytes instead)
+	x := new(big.Int).SetBytes(r.Bytes(n + 16))
+	x.Mod(x, new(big.Int).Sub(groupOrder(g), big.NewInt(1)))
+	x.Add(x, big.NewInt(1))
+	s := g.NewScalar().SetBigInt(x)
 	b, _ := s.MarshalBinary()
 	if len(b) != n {
 		panic("scalar length")
 	}
 	return b
+}
+
+func groupOrder(g group.Group) *big.Int {
+	switch g {
+	case group.P384:
+		return elliptic.P384().Params().N
+	case group.Ristretto255:
+		return ref.EdL
+	}
+	panic("unknown group")
 }
 
 func c01Type2(c *core.Ctx, i int, keys []*rsa.PrivateKey) {
